@@ -50,40 +50,48 @@ func New(opts Options) *Dir {
 func (d *Dir) Write(files map[string][]byte) error {
 	newDir := filepath.Join(d.base, fmt.Sprintf("%d-%s", time.Now().UTC().UnixNano(), d.targetDir))
 
+	verifPoint("mkdirbase.before")
 	if err := os.MkdirAll(d.base, os.ModePerm); err != nil {
 		return err
 	}
 
+	verifPoint("mkdirnew.before")
 	if err := os.MkdirAll(newDir, os.ModePerm); err != nil {
 		return err
 	}
 
 	for file, b := range files {
 		path := filepath.Join(newDir, file)
+		verifPoint("writefile.before")
 		if err := os.WriteFile(path, b, os.ModePerm); err != nil {
 			return err
 		}
 		d.log.Infof("Written file %s", file)
 	}
 
+	verifPoint("symlink.before")
 	if err := os.Symlink(newDir, d.target+".new"); err != nil {
 		return err
 	}
 
 	d.log.Infof("Syslink %s to %s.new", newDir, d.target)
 
+	verifPoint("rename.before")
 	if err := os.Rename(d.target+".new", d.target); err != nil {
 		return err
 	}
 
 	d.log.Infof("Atomic write to %s", d.target)
 
+	verifPoint("rename.after")
 	if d.prev != nil {
+		verifPoint("removeprev.before")
 		if err := os.RemoveAll(*d.prev); err != nil {
 			return err
 		}
 	}
 
+	verifPoint("write.done")
 	d.prev = &newDir
 
 	return nil
